@@ -7,6 +7,8 @@ def run(ctx):
     layout.rule_selector_above_encoding(ctx)
     layout.rule_clause_templates(ctx)
     litalg.rule_literal_algebra(ctx)
+    from . import dyn as _dyn
+    _dyn.rule_decoders_keep_true_variables(ctx)
     ctx.assume("integer arithmetic on usize without overflow for frameworks that fit in memory")
     ctx.assume("rustc's MIR; affine abstract interpretation of sa/affine.py (+, -, <<, exact >>, * by constants, inlined local calls)")
     return (
